@@ -479,6 +479,8 @@ func okPhiFalseInErrorsLoop(p *Prog, fn *ssa.Function, v ssa.Value) bool {
 }
 
 var c04Canaries = []Canary{
+	{Name: "r7-scan-by-ref-name", ExpectKey: "C04.R7#scan-lfs-files:by-object-id", Edits: []Edit{{File: "commands/command_checkout.go", Find: "\n\tchgitscanner.Filter = filepathfilter.New(rootedPaths(args), nil, filepathfilter.GitIgnore)\n\n\tif err := chgitscanner.ScanLFSFiles(ref.Sha, nil); err != nil {\n\t\tExitWithError(err)\n\t}\n\n", Repl: "\n\tchgitscanner.Filter = filepathfilter.New(rootedPaths(args), nil, filepathfilter.GitIgnore)\n\n\tif err := chgitscanner.ScanLFSFiles(ref.Name, nil); err != nil {\n\t\tExitWithError(err)\n\t}\n\n"}, {File: "commands/command_pull.go", Find: "\t}()\n\n\tprocessQueue := time.Now()\n\tif err := gitscanner.ScanLFSFiles(ref.Sha, nil); err != nil {\n\t\tsingleCheckout.Close()\n\t\tExitWithError(err)\n\t}\n", Repl: "\t}()\n\n\tprocessQueue := time.Now()\n\ttracerx.Printf(\"pull: scanning %s for LFS files\", ref.Name)\n\tif err := gitscanner.ScanLFSFiles(ref.Name, nil); err != nil {\n\t\tsingleCheckout.Close()\n\t\tExitWithError(err)\n\t}\n"}}},
+	{Name: "r7-path-list-not-trimmed", ExpectKey: "C04.R3#CleanPaths:each-element-trimmed", Edits: []Edit{{File: "tools/filetools.go", Find: "\t\treturn\n\t}\n\n\tfor _, part := range strings.Split(paths, delim) {\n\t\tpart = strings.TrimSpace(part)\n\n\t\t// Remove trailing `/` or `\\`, but only the first one.\n\t\tfor _, sep := range []string{`/`, `\\`} {\n\t\t\tif strings.HasSuffix(part, sep) {\n", Repl: "\t\treturn\n\t}\n\n\t// (paths has been trimmed above, so the parts need no trimming of their\n\t// own.)\n\tfor _, part := range strings.Split(paths, delim) {\n\t\t// Remove trailing `/` or `\\`, but only the first one.\n\t\tfor _, sep := range []string{`/`, `\\`} {\n\t\t\tif strings.HasSuffix(part, sep) {\n"}}},
 	{Name: "r6-ls-tree-split-at-every-tab", ExpectKey: "C04.R7#ls-tree:path-is-everything-after-first-tab", Edits: []Edit{{File: "git/ls_tree_scanner.go", Find: "func (s *LsTreeScanner) next() (*TreeBlob, bool) {\n\thasNext := s.s.Scan()\n\tline := s.s.Text()\n\tparts := strings.SplitN(line, \"\\t\", 2)\n\tif len(parts) < 2 {\n\t\treturn nil, hasNext\n\t}\n\n\tattrs := strings.SplitN(parts[0], \" \", 4)\n\tif len(attrs) < 4 {\n\t\treturn nil, hasNext\n\t}\n\n\tmode, err := strconv.ParseInt(strings.TrimSpace(attrs[0]), 8, 32)\n\tif err != nil {\n\t\treturn nil, hasNext\n\t}\n", Repl: "func (s *LsTreeScanner) next() (*TreeBlob, bool) {\n\thasNext := s.s.Scan()\n\tline := s.s.Text()\n\t// <mode> SP <type> SP <object> SP <padded size> TAB <file>\n\tparts := strings.Split(line, \"\\t\")\n\tif len(parts) < 2 {\n\t\treturn nil, hasNext\n\t}\n\n\tattrs := strings.Fields(parts[0])\n\tif len(attrs) < 4 {\n\t\treturn nil, hasNext\n\t}\n\n\tmode, err := strconv.ParseInt(attrs[0], 8, 32)\n\tif err != nil {\n\t\treturn nil, hasNext\n\t}\n"}, {File: "git/ls_tree_scanner.go", Find: "\t\treturn nil, hasNext\n\t}\n\n\tsz, err := strconv.ParseInt(strings.TrimSpace(attrs[3]), 10, 64)\n\tif err != nil {\n\t\treturn nil, hasNext\n\t}\n", Repl: "\t\treturn nil, hasNext\n\t}\n\n\tsz, err := strconv.ParseInt(attrs[3], 10, 64)\n\tif err != nil {\n\t\treturn nil, hasNext\n\t}\n"}}},
 	{Name: "r5-delayed-pointers-reset", ExpectKey: "C04.R8", Edits: []Edit{{File: "commands/command_filter_process.go", Find: "\t\t\t\tq = nil\n", Repl: "\t\t\t\tq = nil\n\t\t\t\tptrs = make(map[string]*lfs.Pointer)\n"}}},
 	{Name: "r4-no-pathspec-separator", ExpectKey: "C04.R10", Edits: []Edit{{File: "git/git.go", Find: "\targs = append(args, \"--\")\n\targs = append(args, paths...)", Repl: "\targs = append(args, paths...)"}}},
